@@ -33,7 +33,7 @@ type BackendRun struct {
 	Val   *m.Val   // checked-walk reading of the result (nil if none / malformed)
 	Probs []string // checked-walk problems against the inferred type
 	// Again: how a second invocation of the SAME Callable (fresh environment object, same
-	// contents) differs from the first; "" when it does not. A Callable carries no state from
+	// contents, objects in the reverse field order) differs from the first; "" when it does not. A Callable carries no state from
 	// one invocation to the next, so whatever a property says about the first invocation it
 	// says about the second.
 	Again string
@@ -90,8 +90,11 @@ func runBackends(c *ProgCase, r *CaseRun, bes []run.Backend) {
 			if !o.Failed() {
 				br.Val, br.Probs = run.FromYaeVal(o.Val, r.RefType)
 			}
+			// the second invocation gets the same environment contents with every object written
+			// in the reverse field order (an equal type, equal values): nothing may depend on the
+			// field order a Callable happened to meet first
 			o2 := &run.Outcome{Be: be}
-			en.Invoke(callable, c.Vals, o2)
+			en.Invoke(callable, reverseFieldOrders(c.Vals), o2)
 			br.Again = againDiff(br, o2, r.RefType)
 			if br.Again == "" && traceHasTr(o.Trace) {
 				br.Again = reentrantDiff(en, callable, c, br, r.RefType)
@@ -99,6 +102,21 @@ func runBackends(c *ProgCase, r *CaseRun, bes []run.Backend) {
 		}
 		r.Runs = append(r.Runs, br)
 	}
+}
+
+func reverseFieldOrders(vals map[string]*m.Val) map[string]*m.Val {
+	out := make(map[string]*m.Val, len(vals))
+	rev := func(n int) []int {
+		p := make([]int, n)
+		for i := range p {
+			p[i] = n - 1 - i
+		}
+		return p
+	}
+	for n, v := range vals {
+		out[n] = v.Permute(rev)
+	}
+	return out
 }
 
 func traceHasTr(tr []string) bool {
